@@ -12,7 +12,7 @@ Variable maxlen : N.
 (* mci_ipm_encode.get_config(): the packaged configuration with the PDS processors removed *)
 Definition cfg_nopds (cfg : cfgT) : cfgT :=
   map (fun bc => (fst bc, let c := snd bc in
-                          if proc_eqb (f_proc c) PPDS then mkfc (f_type c) (f_len c) (f_ptype c) (f_datefmt c) PNone (f_proccfg c) else c)) cfg.
+                          if proc_eqb (f_proc c) PPDS then mkfc (f_type c) (f_len c) (f_ptype c) (f_datefmt c) PNone (f_de43 c) else c)) cfg.
 
 (* with IpmWriter(out, encoding=B, blocked=fb[, iso_config]) as w: w.write_many(IpmReader(in, encoding=A, blocked=fa, iso_config=rcfg))
    - mci_ipm_encode and mideu convert: rcfg = cfg_nopds packaged, wcfg = packaged.
